@@ -523,6 +523,8 @@ def load_known(pid: str) -> list[dict]:
 def main(argv: Sequence[str]) -> int:
     import argparse
     import importlib
+    import warnings
+    warnings.simplefilter('ignore', SyntaxWarning)      # CPython warns about mutated texts the oracles feed to ast.parse
     ap = argparse.ArgumentParser()
     ap.add_argument('pid')
     ap.add_argument('--tier', default=os.environ.get('VERIF_TIER', 'quick'))
